@@ -170,3 +170,48 @@ Proof.
   - cbn [negb]. destruct (excl P <? 0); cbn [negb andb]; [reflexivity|].
     destruct (negb (Nat.eqb (length (phases P)) 0)); cbn [andb] in *; [rewrite E1; reflexivity|reflexivity].
 Qed.
+
+(* ---- x/mint/abci.go BeginBlocker, generated as a function on the state it reaches through its keeper (minter, params, supply, height;
+   Minted accumulates what MintCoins was asked to mint): wherever the model's begin_block does not panic, the generated function
+   computes the same minter and mints the same amount ------------------------------------------------------------------------------------- *)
+From Sge Require Proofs.GenKernels.
+Definition mint_state (P : mparams) (m : minter) (supply minted h : Z) : S_mint :=
+  {| S_mint_Minter := gminter_of m; S_mint_Params := gparams_of P; S_mint_Supply := supply; S_mint_Minted := minted; S_mint_Height := h |}.
+
+Lemma gen_BeginBlocker P m supply h m' minted : begin_block P m supply h = BBok m' minted ->
+  K_mint_BeginBlocker (mint_state P m supply 0 h) = mint_state P m' (supply + minted) minted h.
+Proof.
+  unfold begin_block, K_mint_BeginBlocker, mint_state. cbn [S_mint_Minter S_mint_Params S_mint_Height S_mint_Supply S_mint_Minted].
+  rewrite gen_CurrentPhase. destruct (current_phase P h) as [ph step]. cbn [fst snd].
+  cbn [gminter_of gph_of G_Minter_PhaseStep G_Minter_Inflation G_Phase_Inflation].
+  destruct (negb (step =? m_step m) || negb (m_infl m =? ph_infl ph)) eqn:EC.
+  - (* the phase or the inflation changed: the minter is rewritten *)
+    unfold set_G_Minter_PhaseProvisions, set_G_Minter_PhaseStep, set_G_Minter_Inflation, gminter_of, gph_of.
+    cbn [set_G_Minter_Inflation set_G_Minter_PhaseStep set_G_Minter_PhaseProvisions G_Minter_Inflation G_Minter_PhaseStep G_Minter_PhaseProvisions
+         G_Minter_TruncatedTokens gparams_of G_Params_ExcludeAmount m_infl m_step m_prov m_trunc
+         set_S_mint_Minter S_mint_Minter S_mint_Params S_mint_Supply S_mint_Minted S_mint_Height].
+    rewrite (GenKernels.gen_NextPhaseProvisions (ph_infl ph) step (m_prov m) (m_trunc m) supply (excl P) ph).
+    set (m1 := {| m_infl := ph_infl ph; m_step := step; m_prov := next_phase_provisions (ph_infl ph) supply (excl P) ph; m_trunc := m_trunc m |}).
+    destruct (ph_infl ph =? 0) eqn:EZ.
+    + intros H. injection H as <- <-. rewrite Z.add_0_r. reflexivity.
+    + destruct (block_provisions P m1 step) as [[amt tr]|] eqn:EB; [|discriminate].
+      intros H. injection H as <- <-.
+      change {| G_Minter_Inflation := ph_infl ph; G_Minter_PhaseStep := step;
+                G_Minter_PhaseProvisions := next_phase_provisions (ph_infl ph) supply (excl P) ph; G_Minter_TruncatedTokens := m_trunc m |}
+        with (gminter_of m1).
+      fold (gparams_of P). rewrite (gen_BlockProvisions P m1 step amt tr EB).
+      cbn [set_S_mint_Supply set_S_mint_Minted set_S_mint_Minter S_mint_Minter S_mint_Params S_mint_Supply S_mint_Minted S_mint_Height
+           set_G_Minter_TruncatedTokens gminter_of G_Minter_Inflation G_Minter_PhaseStep G_Minter_PhaseProvisions m_infl m_step m_prov m_trunc m1 Z.add].
+      reflexivity.
+  - (* unchanged minter *)
+    destruct (m_infl m =? 0) eqn:EZ.
+    + intros H. injection H as <- <-. rewrite Z.add_0_r. reflexivity.
+    + destruct (block_provisions P m step) as [[amt tr]|] eqn:EB; [|discriminate].
+      intros H. injection H as <- <-.
+      change {| G_Minter_Inflation := m_infl m; G_Minter_PhaseStep := m_step m; G_Minter_PhaseProvisions := m_prov m; G_Minter_TruncatedTokens := m_trunc m |}
+        with (gminter_of m).
+      fold (gparams_of P). rewrite (gen_BlockProvisions P m step amt tr EB).
+      cbn [set_S_mint_Supply set_S_mint_Minted set_S_mint_Minter S_mint_Minter S_mint_Params S_mint_Supply S_mint_Minted S_mint_Height
+           set_G_Minter_TruncatedTokens gminter_of G_Minter_Inflation G_Minter_PhaseStep G_Minter_PhaseProvisions m_infl m_step m_prov m_trunc Z.add].
+      reflexivity.
+Qed.
